@@ -945,3 +945,21 @@ func (p *Prog) WritesTransitiveExcept(f *Fn, stop func(*Fn) bool) map[*types.Var
 	visit(f)
 	return out
 }
+
+// BaseIdent returns the leftmost identifier of a selector/index/star chain (x in x.a.b[i].c), or nil.
+func BaseIdent(e ast.Expr) *ast.Ident {
+	for {
+		switch x := Unparen(e).(type) {
+		case *ast.Ident:
+			return x
+		case *ast.SelectorExpr:
+			e = x.X
+		case *ast.IndexExpr:
+			e = x.X
+		case *ast.StarExpr:
+			e = x.X
+		default:
+			return nil
+		}
+	}
+}
